@@ -100,6 +100,7 @@ _QSORT = ('forward_index[i] = sortpointer[i]-info->postlist after qsort of the p
 _ADX = ('adx = x1-x0 over consecutive posts in sorted order; floor1_unpack rejects duplicate post positions '
         '(R02.3 floor1_unpack:unique-posts), so adx >= 1')
 _STR = 'caller-supplied C strings (API arguments, not stream data): the sum of two object sizes cannot exceed the address space'
+STRLEN_SIZES = _STR
 ASSUME = {
     ('_01inverse', 'div:<<$>.phrasebook.dim>'): _PPW,
     ('res2_inverse', 'div:<<$>.phrasebook.dim>'): _PPW,
@@ -134,7 +135,4 @@ ASSUME = {
     ('vorbis_book_decodevs_add', 'alloca:__builtin_alloca((8*<($/.dim)>))'):
         'step = n/dim <= n = samples_per_partition; _01inverse calls the stage decoder only when partvals = (end-begin)/'
         'samples_per_partition >= 1 with end clipped to pcmend/2 <= 4096 (R02.3 residue-end-clipped), so step <= 4096: 32 KiB',
-    ('vorbis_comment_add_tag', 'alloc:malloc(((strlen($)+strlen($))+2))'): _STR,
-    ('vorbis_comment_query', 'alloc:malloc((<(strlen($)+1)>+1))'): _STR,
-    ('vorbis_comment_query_count', 'alloc:malloc((<(strlen($)+1)>+1))'): _STR,
 }
